@@ -297,51 +297,43 @@ def cancellation(ctx):
 
 
 def frame_atomicity(ctx):
+    """R15.5 by failure injection in the model: DataHandler.save_time_step (and what it calls) is followed (pvs/shapes.py) for frame 0
+    and frame 1; during frame 1 the n-th write into the output file - n = 1 .. all of them - raises OSError / KeyboardInterrupt
+    before it takes effect.  Afterwards the exception must have propagated, `data/1` must not exist and the frame counter must still
+    say 1 - whether the cleanup is a try/except, a context manager or a helper."""
+    from ..shapes import MANY, write_frames
     repo = ctx.repo
     f = repo.func(RUNNER, "DataHandler.save_time_step")
-    fn = f.node
-    pm = parent_map(fn)
-    creates = [n for n in own_nodes(fn) if isinstance(n, ast.Assign) and isinstance(n.value, ast.Call)
-               and norm(n.value.func) == "self.time_step_group.create_group"]
-    if len(creates) != 1:
-        raise AnalysisError("save_time_step no longer creates the frame group with self.time_step_group.create_group")
-    c = creates[0]
-    gname = norm(c.targets[0])
-    # statements after the creation that write into the group (or anything that may raise)
-    body = fn.body
-    idx = body.index(c) if c in body else None
-    protected = False
-    unprotected = []
-    narrow = []
-    if idx is not None:
-        for s in body[idx + 1:]:
-            if isinstance(s, ast.Try):
-                dels = [h for h in s.handlers if any(
-                    isinstance(x, ast.Delete) and "time_step_group" in norm(x) for x in ast.walk(h)) and
-                    any(isinstance(x, ast.Raise) for x in ast.walk(h))]
-                # the property's stop points include Ctrl-C inside the writer: KeyboardInterrupt is not an Exception
-                def covers_interrupt(h):
-                    if h.type is None:
-                        return True
-                    names = {norm(x) for x in (h.type.elts if isinstance(h.type, ast.Tuple) else [h.type])}
-                    return "BaseException" in names or ("KeyboardInterrupt" in names and "Exception" in names)
-                catches_all = any(covers_interrupt(h) for h in dels)
-                if dels and catches_all:
-                    protected = True
-                    continue
-                if dels and not catches_all:
-                    narrow = [norm(h.type) for h in dels]
-            if default_may_raise(s) and any(isinstance(x, ast.Name) and x.id in (gname, "running_grp", "tmp_grp") or
-                                            (isinstance(x, ast.Attribute) and x.attr == "save_number") for x in ast.walk(s)):
-                unprotected.append(f"L{s.lineno}: {norm(s)[:70]}")
-    wrote_outside = [u for u in unprotected if gname in u or "running_grp" in u]
-    ok = protected and not wrote_outside
-    ctx.ob("R15.5", "writes into a freshly created frame group are covered by a handler that deletes the group and re-raises "
-                    "for every exception class including KeyboardInterrupt", ok,
-           detail={"create": norm(c), "unprotected_writes": wrote_outside, "handler_too_narrow": narrow}, where=f.fq, construct="frame group fill",
-           loc=loc(f, c),
-           message=(f"the cleanup handler of the frame fill only catches {narrow}: a KeyboardInterrupt while the frame is written leaves the partial group"
-                    if narrow else f"`{norm(c)}` links the frame first and fills it afterwards with no cleanup on failure: {wrote_outside[:3]}"),
+    sizes = {"dt": 1, "mu": MANY, "theta": MANY, "screening_iterations": 1}
+    out, problems, mach = write_frames(repo, sizes, MANY, 1, fail={"at": -1, "exc": "OSError"})
+    if problems:
+        raise AnalysisError(f"the frame writer does not run through in the model: {problems[0]}")
+    n_points = mach.fail["count"]
+    points = list(mach.fail["points"])
+    if n_points < 6:
+        raise AnalysisError(f"only {n_points} writes into the output file found while following save_time_step for one frame")
+    bad, narrow = [], []
+    for exc in ("OSError", "KeyboardInterrupt"):
+        for n in range(1, n_points + 1):
+            out, problems, mach = write_frames(repo, sizes, MANY, 1, fail={"at": n, "exc": exc})
+            data = out.items["data"]
+            left = [k for k in data.items if str(k) == "1"]
+            raised = bool(problems) and exc in problems[0]
+            if left or not raised or mach.self_state.get("save_number") != 1:
+                what = (f"{exc} at write {n} ({points[n - 1]}): " + ("data/1 is left behind with " + str(sorted(map(str, data.items[left[0]].items))
+                                                                     + sorted(map(str, data.items[left[0]].attrs.items))) if left else
+                                                                     "the exception does not propagate" if not raised else
+                                                                     f"the frame counter is {mach.self_state.get('save_number')}"))
+                bad.append(what)
+                if exc == "KeyboardInterrupt":
+                    narrow.append(n)
+    only_interrupt = bad and all(x.startswith("KeyboardInterrupt") for x in bad)
+    ctx.ob("R15.5", "a failure (OSError or KeyboardInterrupt) at any write into a frame group removes the group, re-raises and leaves the "
+                    "frame counter alone", not bad,
+           detail={"write_points": points, "cases": 2 * n_points, "problems": bad[:6]}, where=f.fq, construct="frame group fill",
+           loc=loc(f, f.node),
+           message=("a KeyboardInterrupt while the frame is written leaves the partial group: " if only_interrupt else
+                    "a failure while a frame is written leaves a partial frame: ") + "; ".join(bad[:3]),
            consequence="an I/O error (or interrupt) while writing frame k leaves data/<k> with attributes but missing datasets; "
                        "get_data_range counts it and loading the last frame fails",
            witness={"input": "OSError injected into the third group[key] = value of frame 2"})
